@@ -2,9 +2,9 @@
    Property theorems only; each is closed by `exact` and followed by Print Assumptions.
    Theorems over R (the arccos formula of cap_distance) depend on the axioms of Coq's standard
    real-number library; everything about the executable model (Q, Z, lists) is axiom-free. *)
-From Coq Require Import ZArith QArith Qabs Reals List Bool.
+From Coq Require Import ZArith QArith Qabs Qreals Reals List Bool.
 Import ListNotations.
-From PV Require Import C12.Model C12.Arccos C12.Proofs C12.SetUse.
+From PV Require Import C12.Model C12.Arccos C12.Proofs C12.SetUse C12.Storage C12.Bridge.
 Open Scope Z_scope.
 
 (* ---- the code's formula is the property's algebraic test (over the reals) ---- *)
@@ -37,6 +37,13 @@ Theorem C12_boundary_in_both_R : forall c d : R, (-1 <= d <= 1)%R -> (0 < c <= 2
   (cap_distance_R (- c) d >= 0)%R /\ (cap_distance_R c d >= 0)%R.
 Proof. exact Arccos.boundary_in_both. Qed.
 Print Assumptions C12_boundary_in_both_R.
+
+(* the executable cap test of the model, on rationals, IS the sign test of the code's formula on the same numbers *)
+Theorem C12_in_cap_is_arccos_test : forall c p,
+  (-1 <= Q2R (dot (cx c) p) <= 1)%R -> (-2 <= Q2R (ccm c) <= 2)%R ->
+  (in_cap c p = true <-> (cap_distance_R (Q2R (ccm c)) (Q2R (dot (cx c) p)) >= 0)%R).
+Proof. exact in_cap_is_arccos_test. Qed.
+Print Assumptions C12_in_cap_is_arccos_test.
 
 (* ---- caps (executable model over Q) ---- *)
 
@@ -138,6 +145,16 @@ Theorem C12_in_window_first : forall Ps ncaps pts i p, Forall wf_poly Ps -> nth_
   (r = (false, -1) \/ exists k, r = (true, Z.of_nat k)).
 Proof. exact in_window_first. Qed.
 Print Assumptions C12_in_window_first.
+
+(* identical answers from every storage route: only NCAPS, USE_CAPS and the first NCAPS caps matter *)
+Theorem C12_in_polygon_same_visible : forall P P' ncaps p, same_visible P P' -> in_polygon P ncaps p = in_polygon P' ncaps p.
+Proof. exact in_polygon_same_visible. Qed.
+Print Assumptions C12_in_polygon_same_visible.
+
+Theorem C12_in_window_storage_independent : forall Ps Ps' ncaps pts, Forall2 same_visible Ps Ps' ->
+  in_window Ps ncaps pts = in_window Ps' ncaps pts.
+Proof. exact in_window_storage_independent. Qed.
+Print Assumptions C12_in_window_storage_independent.
 
 (* ---- set_use_caps ---- *)
 
